@@ -220,8 +220,15 @@ def check_c02(ctx, ana, case, judge=True):
     # (c) external load at the recorded state and time
     L = ana.L
     scale = abs(load['A']) + abs(load['S']) + abs(load['step_A']) + abs(load.get('P') or 0.0)
+    loads_ = [load] * N
+    for r_ in ana.runs or ():
+        if r_.get('load'):
+            for k in range(r_['n0'], min(r_['n1'], N)):
+                loads_[k] = r_['load']          # the load function in force during THIS run (it may be replaced between two runs)
     for k in range(N):
         t, p, w = tr.time[k], L['angular position'][k], L['angular speed'][k]
+        load = loads_[k]
+        scale = abs(load['A']) + abs(load['S']) + abs(load['step_A']) + abs(load.get('P') or 0.0)
         exp = load_value(load, t, p, w)
         sc = scale + abs(load['B'] * w) + abs(load['C'] * p)
         if load.get('P'):
